@@ -7,6 +7,7 @@ Input: one JSON object per line. URL values are objects with the string members
 import SpecModel.Wire
 import SpecModel.Url.Normalizer
 import SpecModel.Url.Rfc3986
+import SpecModel.Codec.Url
 
 namespace SpecModel.UrlOps
 open SpecModel SpecModel.Url
@@ -49,6 +50,12 @@ def op (name : String) (j : Lean.Json) : Except String String := do
       pure (showURL (denormalizeRefId (Ref.new ref) base id).url).render
   | "rfc" => pure (showURL (Rfc.resolve (← urlField j "base") (← urlField j "ref"))).render
   | "refnew" => pure (showRef (Ref.new (← urlField j "u"))).render
+  | "refprint" =>
+      -- the text a reference prints after parsing (`NewRef(s).String()`), on the tame grammar of Codec/Url.lean
+      match Codec.urlString (← Wire.strField j "s") with
+      | .ok t => pure (Json.renderString t)
+      | .err => pure "err"
+      | .oom => throw "out-of-model:outside the tame URL grammar"
   | _ => throw s!"bad-op:unknown {name}"
 
 end SpecModel.UrlOps
